@@ -89,15 +89,23 @@ def _num(rng, v, nbits):
     return _txt(s, nbits, 'r' if style == 'r' else 'l')
 
 
-def write_definition(rng, version, edition, b_entries, d_entries, a_entries, centre=7):
+def write_definition(rng, version, edition, b_entries, d_entries, a_entries, centre=7, fixed=()):
     """b_entries: [(id, name, unit, scale, ref, nbits)], d_entries: [(id, name, [member ids])]
+    fixed: the parts ('a', 'b', 'd') whose entries stand under FIXED replication (1XX00n) instead of the
+    delayed replication of the NCEP sample layout - the library's definition processor reads both.
     -> (bytes, truth)"""
     tb, _td = bufrgen.load_tables(version)
     w = dict((i, tb[i][4]) for i in (1, 2, 3, 10, 11, 12, 13, 14, 15, 16, 17, 18, 19, 20, 30))
-    raws = [len(a_entries)]
+    fixed = set(x for x, n in (('a', len(a_entries)), ('b', len(b_entries)), ('d', len(d_entries)))
+                if x in fixed and 1 <= n <= 255)
+    template = [['f', len(a_entries), DEF_TEMPLATE[0][2]] if 'a' in fixed else DEF_TEMPLATE[0],
+                ['f', len(b_entries), DEF_TEMPLATE[1][2]] if 'b' in fixed else DEF_TEMPLATE[1],
+                ['f', len(d_entries), DEF_TEMPLATE[2][2]] if 'd' in fixed else DEF_TEMPLATE[2]]
+    raws = [] if 'a' in fixed else [len(a_entries)]
     for (code, l1, l2) in a_entries:
         raws += [_txt(code, w[1]), _txt(l1, w[2]), _txt(l2, w[3])]
-    raws.append(len(b_entries))
+    if 'b' not in fixed:
+        raws.append(len(b_entries))
     for (eid, name, unit, scale, ref, nbits) in b_entries:
         n1 = name[:w[13] // 8]
         n2 = name[w[13] // 8:]
@@ -107,7 +115,8 @@ def write_definition(rng, version, edition, b_entries, d_entries, a_entries, cen
                  _txt('+' if scale >= 0 else '-', w[16]), _num(rng, abs(scale), w[17]),
                  _txt('+' if ref >= 0 else '-', w[18]), _num(rng, abs(ref), w[19]),
                  _num(rng, nbits, w[20])]
-    raws.append(len(d_entries))
+    if 'd' not in fixed:
+        raws.append(len(d_entries))
     for (sid, name, members) in d_entries:
         raws += [_txt('3', w[10]), _txt('%02d' % ((sid // 1000) % 100), w[11]), _txt('%03d' % (sid % 1000), w[12]),
                  _txt(name, 64 * 8), len(members)]
@@ -115,8 +124,10 @@ def write_definition(rng, version, edition, b_entries, d_entries, a_entries, cen
     spec = {'edition': edition, 'version': version, 'local_version': 0, 'centre': centre, 'subcentre': 0,
             'category': 11, 'subcategory': 0, 'local_subcategory': 0, 'update': 0,
             'date': [2020, 5, 6, 7, 8, 9], 'sec2': None, 'pads': {}, 'compressed': False,
-            'template': DEF_TEMPLATE, 'subsets': [raws], 'observed': True}
-    return bufrgen.write_message(spec)
+            'template': template, 'subsets': [raws], 'observed': True}
+    msg, truth = bufrgen.write_message(spec)
+    truth['fixed_parts'] = sorted(fixed)
+    return msg, truth
 
 
 # ----------------------------------------------------------------------------
@@ -276,6 +287,9 @@ def _gen_plan(family, rng, tier):
     sub = family
     if family == 'c08-def':
         sub = rng.choice(['c20', 'c20-redef', 'c20-redef', 'c20-ncep'])
+    fixed_layout = family == 'c20-fixed'
+    if fixed_layout:
+        sub = rng.choice(['c20', 'c20-redef'])
     vs = rng.sample(versions(), rng.randint(1, 2))
     clash = rng.random() < 0.15         # sessions in which a bundled local table defines the same ids
     if clash:
@@ -355,8 +369,11 @@ def _gen_plan(family, rng, tier):
         a_entries = [('%03d' % rng.randint(200, 255), 'VERIF TABLE A LINE 1', 'LINE 2')
                      for _ in range(rng.choice([0, 1, 1, 2]))]
         dv = rng.choice(vs + [13])
-        msg, _truth = write_definition(rng, dv, rng.choice([3, 3, 4]), b_entries, d_entries, a_entries)
-        items.append({'kind': 'def', 'hex': msg.hex(), 'version': dv,
+        fixed = ()
+        if fixed_layout:
+            fixed = rng.choice([('b',), ('d',), ('b', 'd'), ('a',), ('a', 'b', 'd'), ('a', 'b'), ('a', 'd')])
+        msg, dtruth = write_definition(rng, dv, rng.choice([3, 3, 4]), b_entries, d_entries, a_entries, fixed=fixed)
+        items.append({'kind': 'def', 'hex': msg.hex(), 'version': dv, 'fixed_parts': dtruth['fixed_parts'],
                       'b': [[e[0], e[2], e[3], e[4], e[5]] for e in b_entries],
                       'd': [[d[0], d[2]] for d in d_entries], 'redefined': redefined,
                       'cached_before': sorted(cached)})
@@ -391,7 +408,7 @@ def _gen_plan(family, rng, tier):
             cached.add(v)
     seps = [streamsim.gen_separator(rng)[1].hex() if rng.random() < 0.5 else '' for _ in range(len(items) + 1)]
     knobs = {'coe': coe, 'compiled': rng.choice([1, 2, 8, 8]) if family == 'c08-def' else None,
-             'filecheck': family != 'c08-def' and rng.random() < 0.25, 'sub': sub}
+             'filecheck': family != 'c08-def' and rng.random() < 0.25, 'sub': sub + ('-fixed' if fixed_layout else '')}
     return {'knobs': knobs, 'items': items, 'seps': seps}
 
 
@@ -622,7 +639,8 @@ def oracle(plan, tr):
 # ----------------------------------------------------------------------------
 def shape(plan, tr=None):
     kn = plan['knobs']
-    per = tuple((it['kind'], len(it.get('b', [])), len(it.get('d', [])), bool(it.get('redefined')),
+    per = tuple((it['kind'], len(it.get('b', [])), len(it.get('d', [])), ''.join(it.get('fixed_parts', [])),
+                 bool(it.get('redefined')),
                  bool(it.get('uses_ncep')), bool(it.get('after_cached')), bool(it.get('uses_redefined')),
                  bool(it.get('reused_template')))
                 for it in plan['items'])
